@@ -204,11 +204,27 @@ def run(ctx, rep):
         good = bool(sup) and [getattr(a, 'id', None) for a in sup[0].args] == [m.params[1], m.params[2]]
         rep.check('D3.dispatch', m, sup[0] if sup else m.node.name, good, 'falls back to super().percent_point(y, V)',
                   'the family does not forward (y, V) to the generic search', construct=f'{fam.split(".")[-1]} generic branch')
+        from ..idioms import guard_chain
+        famcls = prog.cls(fam)
+        inv = famcls.lookup_attr('invalid_thetas')
+        invalid = [const_value(e) for e in inv[1].elts] if inv is not None and isinstance(inv[1], (ast.List, ast.Tuple)) else []
+        short_name = fam.split('.')[-1]
         for r in [n for n in walk_no_nested(m.node) if isinstance(n, ast.Return) and isinstance(n.value, ast.Name)]:
-            if fam.endswith('Gumbel'):
-                rep.check('D3.dispatch', m, r, r.value.id == m.params[1], 'independence shortcut returns y (u = y when theta = 1)',
-                          f'the independence shortcut returns `{r.value.id}` instead of the probability `{m.params[1]}`',
-                          construct='Gumbel shortcut')
+            # a shortcut guarded by `self.theta == c` with c an invalid theta is unreachable after check_fit()
+            from ..boolcond import Conds, atoms_of, implies
+            reach = Conds(prog, m).reach(r)
+            dead = False
+            if reach is not None:
+                for k in [k for k in atoms_of(reach) if k.startswith('eq[') and 'theta' in k]:
+                    consts = [x for x in k[3:-1].split('|') if 'theta' not in x]
+                    if implies(reach, ('atom', k)) and any(c_ in {repr(v) for v in invalid} | {str(v) for v in invalid} for c_ in consts):
+                        dead = True
+            if dead:
+                rep.ok('D3.dispatch', m, r, f'shortcut guarded by theta == {invalid}: unreachable after check_fit() (returns `{r.value.id}`)', construct=f'{short_name} shortcut')
+            else:
+                rep.check('D3.dispatch', m, r, r.value.id == m.params[1], 'independence shortcut returns y (u = y at independence)',
+                          f'the shortcut returns `{r.value.id}` instead of the probability `{m.params[1]}`: percent_point no longer inverts the conditional CDF there',
+                          construct=f'{short_name} shortcut')
     ind = prog.cls('copulas.bivariate.independence.Independence').methods.get('percent_point')
     if ind is not None:
         rets = [n for n in walk_no_nested(ind.node) if isinstance(n, ast.Return) and isinstance(n.value, ast.Name)]
